@@ -56,6 +56,9 @@ def run(ctx):
     r7_held_learners(ctx, fam)
     r8_parallel_lists(ctx)
     r9_unbounded_memo_of_draws(ctx)
+    r10_saved_params(ctx)
+    from . import c13
+    c13.r13_forwarding_getattr(ctx, rule="C04.R11")   # "after pickling": cached / materialised environments hold row views
 
 
 DRAWS = {"choice", "choicew", "random", "randoms", "randint", "randints", "shuffle", "gauss", "gausses"}
@@ -85,6 +88,22 @@ def r9_unbounded_memo_of_draws(ctx, rule="C04.R9"):
                                                                      any(k.arg == "maxsize" and isinstance(k.value, ast.Constant) and k.value.value is None for k in d.keywords)))
         ctx.ob(rule, rel, qual, d, "the memo of a drawing function never evicts", unbounded, detail={"decorator": unparse(d), "draws": [unparse(c)[:60] for c in draws][:3]})
     ctx.floor(rule, "memoised functions that draw from a generator", n, 1)
+
+
+def r10_saved_params(ctx, rule="C04.R10"):
+    ctx.rule(rule, "save() stores the params an environment reports once it has been read: EnvironmentsToObjects starts reading the environment (peek) before it "
+                   "takes env.params, and the peeked stream -- not a second read -- supplies the interactions")
+    SER = "coba/environments/serialized.py"
+    fn = ctx.fn(SER, "EnvironmentsToObjects._env_to_objects")
+    E = fn.args.args[1].arg
+    stmts = list(fn.body)
+    idx_params = [i for i, st in enumerate(stmts) if any(isinstance(y, ast.Yield) and y.value is not None and unparse(y.value) == f"{E}.params" for y in ast.walk(st))]
+    idx_read = [i for i, st in enumerate(stmts) if any(isinstance(c, ast.Call) and unparse(c.func) == f"{E}.read" for c in ast.walk(st))
+                and any(isinstance(c, ast.Call) and call_name(c) in ("peek_first", "next", "list") for c in ast.walk(st))]
+    ok = bool(idx_params) and bool(idx_read) and min(idx_read) < min(idx_params)
+    ctx.ob(rule, SER, "EnvironmentsToObjects._env_to_objects", stmts[idx_params[0]] if idx_params else fn, "the environment has been read (peeked) before its params are taken", ok, stmt="params after peek")
+    reads = [c for c in ast.walk(fn) if isinstance(c, ast.Call) and unparse(c.func) == f"{E}.read"]
+    ctx.ob(rule, SER, "EnvironmentsToObjects._env_to_objects", reads[0] if reads else fn, "the environment is read once for saving (the peeked stream is the one that is stored)", len(reads) == 1, stmt="one read for saving")
 
 
 STRUCT_MUT = {"pop", "insert", "remove", "append", "sort", "reverse", "clear", "extend"}
@@ -1060,6 +1079,7 @@ def _bounded_memo(tree):
 
 
 CONTROLS = [
+    ("save takes the params before reading", "coba/environments/serialized.py", M.swap_stmts("EnvironmentsToObjects._env_to_objects", M.text_has("peek_first(env.read())"), M.simple_has("yield env.params")), "C04.R10"),
     ("feedback memo evicts", EF, _bounded_memo, "C04.R9"),
     ("failing source leaves a truncated buffer", PF, M.replace_stmt("Cache.filter", lambda st: isinstance(st, ast.While),
         "while current := list(islice(self._iter, n_slice)):\n    self._cache.extend(current)\n    yield from current"), "C04.R6"),
